@@ -27,10 +27,21 @@ point the solver evaluates; the judged objective makes exactly that point the be
       reproducible:history-vs-fresh-objects   a call on re-used argument objects edited in place == the call on fresh objects
       reproducible:same-call-repeated         identical consecutive calls of a history agree
       reproducible:history-vs-fresh-process   ... and agree with a new interpreter
+Round-3 family, presentation diversity (generator checks/search_round2.present_of, judge judge_present below): the small-scope random
+and the mid-size cases of every solver once more with the same problem presented in another legal way - callback results that are
+persistent caller-owned objects (neighbourhood table `lambda s: table[s]` as list / tuple, generator / iter / map / zip objects and a
+dict items view over it, cached solution and partial-solution objects), argument containers list / tuple (operators, weights,
+population, bounds, x0, initial population / swarm rows), gradient results list / tuple / the callback's own buffer, unusual solution
+and move-label values (None, "", frozenset(), 0.0, False, strings, frozensets, nested pairs, True == 1 == 1.0).  One set of objects
+per case, the same call twice; per call the clauses above, plus
+      frame:caller-data-unchanged             typed deep snapshot of the argument objects and of the data behind the callbacks is the
+                                              same before and after the call
+      reproducible:same-call-same-objects     the identical second call (same objects, same seed) gives the identical Result
 """
 from __future__ import annotations
 
 import itertools
+import os
 import random
 import signal
 
@@ -41,6 +52,20 @@ from vf.core import Ctx, canon, digest, use_repo
 from vf.pool import pmap
 
 LEVEL = "exploration"
+# None as a solution value (Ring rep "none0") is switched on by VERIF_C19_NONE_STATES=1: see triage/C19_round3.md
+NONE_STATES = os.environ.get("VERIF_C19_NONE_STATES") == "1"
+PRESENT_DESC = dict(
+    transformers="solutions: persistent objects owned by the callbacks / fresh lists / \"\" frozenset() 0.0 False as state 0 / strings / "
+                 "frozensets / a pair whose first entry is a state / True == 1; tabu_search neighbourhoods: persistent table list / tuple "
+                 "(`lambda s: table[s]`), generator / iter / map / zip objects over it, items view of a persistent dict, fresh list; move "
+                 "labels None / \"\" / str / frozenset / False == 0, True == 1, 2.0 == 2 / nested pairs; lns / alns: persistent partial "
+                 "solutions, operator and weight containers list / tuple; evolve: population list / tuple; continuous: bounds list / tuple of "
+                 "tuples / lists, x0 and initial rows list / tuple, initial population / swarm list / tuple, gradient list / tuple / the "
+                 "callback's own buffer",
+    judged="one set of objects per case, the same call twice: books of each call; typed deep snapshot of the argument objects and of the "
+           "data behind the callbacks equal before / after each call; second Result == first",
+    left_out="one-shot iterators for arguments typed Sequence (population, bounds, x0, initial_population / initial_positions, operator "
+             "lists); equality of the Result across presentations (the statement promises reproducibility on the same input only)")
 FIRST = ("anneal", "tabu_search", "lns", "alns", "evolve", "differential_evolution", "particle_swarm",
          "nelder_mead", "bayesian_opt")
 SECOND = ("powell", "bfgs", "lbfgs")
@@ -108,7 +133,7 @@ def _keep_list(shared, slot, values):
     obj = shared.get(slot)
     if obj is None:
         shared[slot] = obj = values
-    else:
+    elif not shared.get("frozen"):  # presentation mode: the caller's object is handed over again exactly as the last call left it
         obj[:] = values
     return obj
 
@@ -117,6 +142,8 @@ def _keep_rows(shared, slot, rows):
     """List of points: outer list and (for list rows) the inner lists keep their identity."""
     if shared is None or rows is None:
         return rows
+    if shared.get("frozen") and slot in shared:
+        return shared[slot]
     obj = shared.setdefault(slot, [])
     for i, r in enumerate(rows):
         if i < len(obj) and isinstance(obj[i], list) and isinstance(r, list):
@@ -141,10 +168,93 @@ def _ring(env, K, rep):
 
 def _start(env, shared, ring, i):
     if shared is not None and ring.rep == "list":  # the caller's own list object, edited in place between calls
+        if shared.get("frozen") and "start" in env:
+            return env["start"]
         obj = env.setdefault("start", [0])
         obj[:] = [i % ring.K]
         return obj
     return ring.mk(i)
+
+
+# ---- presentation mode (round 3): containers / persistence of callback results and of argument lists
+def _box(kind, seq):
+    return tuple(seq) if kind == "tuple" else list(seq)
+
+
+def _label(kind, mv):
+    """Unusual but legal VALUES for the hashable move labels of tabu_search."""
+    if kind in (None, "asis"):
+        return mv
+    if kind == "none":  # the label of the null step / of target 0 is None
+        return None if mv in (0, (0, 0)) else mv
+    if kind == "str":
+        return "" if mv == 0 else repr(mv)
+    if kind == "fset":
+        return frozenset(mv) if isinstance(mv, tuple) else (frozenset() if mv == 0 else frozenset({mv}))
+    if kind == "typed":  # equal-but-differently-typed labels: False == 0, True == 1 == 1.0, 2.0 == 2
+        if isinstance(mv, int):
+            return (False, True, 2.0)[mv] if 0 <= mv <= 2 else (float(mv) if mv % 2 else mv)
+        return mv
+    if kind == "nested":  # a pair whose first entry is itself a state
+        return (mv, ("move", mv))
+    raise ValueError(kind)
+
+
+def _freeze(x, depth=0):
+    """Typed deep snapshot of the caller-owned data (argument objects, what lives behind the callbacks)."""
+    if isinstance(x, Ring):
+        return ("Ring", x.K, x.rep, _freeze(x.cache, depth + 1))
+    if isinstance(x, (list, tuple)):
+        return (type(x).__name__, tuple(_freeze(v, depth + 1) for v in x))
+    if isinstance(x, dict):
+        return ("dict", tuple((repr(k), _freeze(v, depth + 1)) for k, v in x.items()))
+    if isinstance(x, (set, frozenset)):
+        return (type(x).__name__, tuple(sorted(map(repr, x))))
+    if x is None or isinstance(x, (bool, int, float, str)):
+        return (type(x).__name__, repr(x))
+    return ("object", type(x).__name__)  # functions, recorder, iterators: identity is all the caller owns
+
+
+def _freeze_diff(a, b, path="data"):
+    """First place where two snapshots differ."""
+    if a == b:
+        return None
+    if a[0] != b[0] or a[0] in ("set", "frozenset", "object", "NoneType", "bool", "int", "float", "str"):
+        return f"{path}: {_thaw(a)} -> {_thaw(b)}"
+    if a[0] == "Ring":
+        return _freeze_diff(a[3], b[3], path + ".cache") or f"{path}: {a[:3]} -> {b[:3]}"
+    if a[0] == "dict":
+        ka, kb = [k for k, _ in a[1]], [k for k, _ in b[1]]
+        if ka != kb:
+            return f"{path}: keys {ka} -> {kb}"
+        for (k, va), (_, vb) in zip(a[1], b[1]):
+            d = _freeze_diff(va, vb, f"{path}[{k}]")
+            if d:
+                return d
+    if len(a[1]) != len(b[1]):
+        return f"{path}: {_thaw(a)} -> {_thaw(b)}"
+    if sorted(map(repr, a[1])) == sorted(map(repr, b[1])):
+        return f"{path}: same entries in a new order: {_thaw(a)} -> {_thaw(b)}"
+    if all(_freeze_diff(va, vb) is None or va[0] not in ("list", "tuple", "dict", "Ring") for va, vb in zip(a[1], b[1])):
+        return f"{path}: {_thaw(a)} -> {_thaw(b)}"  # a flat container whose entries changed: show it whole
+    for i, (va, vb) in enumerate(zip(a[1], b[1])):
+        d = _freeze_diff(va, vb, f"{path}[{i}]")
+        if d:
+            return d
+    return f"{path}: changed"
+
+
+def _thaw(f):
+    if f[0] in ("list", "tuple"):
+        inner = ", ".join(_thaw(v) for v in f[1])
+        return f"[{inner}]" if f[0] == "list" else f"({inner})"
+    if f[0] == "dict":
+        return "{" + ", ".join(f"{k}: {_thaw(v)}" for k, v in f[1]) + "}"
+    if f[0] in ("set", "frozenset"):
+        return f[0] + "(" + ", ".join(f[1]) + ")"
+    if f[0] == "Ring":
+        return f"Ring{f[1:3]}"
+    return f[1]
 
 
 def _points(spec, bounds):
@@ -166,6 +276,20 @@ def _call(case, rec, minimize, shared=None):
     if case.get("bare") == "all" and minimize:  # ... and minimize too
         kw = {}
     env = _env(shared)
+    pres = case.get("present") or {}
+    frozen = bool(shared is not None and shared.get("frozen"))
+
+    def go(fn, *a, **k):
+        """The solver call itself; in presentation mode bracketed by typed deep snapshots of everything the caller owns
+        (argument objects incl. operator / weight / bounds / population lists, and the data behind the callbacks)."""
+        if not frozen:
+            return fn(*a, **k)
+        owned = {"arguments": a, "keywords": k, "behind_callbacks": env}
+        shared["_before"] = _freeze(owned)
+        try:
+            return fn(*a, **k)
+        finally:
+            shared["_after"] = _freeze(owned)
 
     if s in ("anneal", "tabu_search", "lns", "alns", "evolve"):
         ring = _ring(env, case["obj"]["K"], case.get("rep", "int"))
@@ -189,24 +313,56 @@ def _call(case, rec, minimize, shared=None):
                 c = env.setdefault("const", lambda t0, it, mx: t0)  # user schedule
             cfg["cooling"] = c
         start = _start(env, shared, ring, case["start"])
-        return anneal(start, rec, env["neighbors"], **cfg, **kw), [start], None
+        return go(anneal, start, rec, env["neighbors"], **cfg, **kw), [start], None
 
     if s == "tabu_search":
         from solvor.tabu import tabu_search
         env["mbs"], env["label"] = case["moves"], case.get("label", "step")
+        env["lab"], env["nbr"] = pres.get("label"), pres.get("nbr", "list")
         if "neighbors" not in env:
-            def neighbors(sol):
-                i = Ring.idx(sol)
+            def pairs(i, sol):
                 ring, mbs, label = env["ring"], env["mbs"], env["label"]
                 out = []
                 for step in mbs[i % len(mbs)]:
                     mv = step if label == "step" else ((i + step) % ring.K if label == "target" else (i, step))
-                    out.append((mv, sol if step == 0 else ring.mk(i + step)))
+                    out.append((_label(env["lab"], mv), sol if step == 0 else ring.mk(i + step)))
                 return out
 
+            def neighbors(sol):
+                i = Ring.idx(sol)
+                kind = env["nbr"]
+                if kind == "list":  # a freshly built list on every call
+                    return pairs(i, sol)
+                t = env["table"][i]  # the caller's precomputed neighbourhood table: neighbors = lambda s: table[s]
+                if kind in ("plist", "ptuple"):
+                    return t  # the persistent object itself
+                if kind == "items":
+                    return t.items()  # view of a persistent {move: solution} dict
+                if kind == "gen":
+                    return (pr for pr in t)
+                if kind == "iter":
+                    return iter(t)
+                if kind == "map":
+                    return map(tuple, t)
+                if kind == "zip":
+                    return zip([pr[0] for pr in t], [pr[1] for pr in t])
+                raise ValueError(kind)
+
             env["neighbors"] = neighbors
+        if env["nbr"] != "list" and "table" not in env:  # built once, before the first call; lives as long as the callback
+            tab = {}
+            for i in range(ring.K):
+                pr = pairs(i, ring.mk(i))
+                if env["nbr"] == "items":
+                    d = {}
+                    for mv, nb in pr:
+                        d.setdefault(mv, nb)
+                    tab[i] = d
+                else:
+                    tab[i] = tuple(pr) if env["nbr"] == "ptuple" else pr
+            env["table"] = tab
         start = _start(env, shared, ring, case["start"])
-        return tabu_search(start, rec, env["neighbors"], **cfg, **kw), [start], None
+        return go(tabu_search, start, rec, env["neighbors"], **cfg, **kw), [start], None
 
     if s == "lns":
         from solvor.lns import lns
@@ -214,6 +370,8 @@ def _call(case, rec, minimize, shared=None):
         env["dk"], env["rk"], env["script"] = case.get("destroy", "copy"), case.get("repair", "script"), case["script"]
         if "destroy" not in env:
             def destroy(sol, rng):
+                if env["dk"] == "cached":  # one persistent partial-solution object per state, owned by the callback
+                    return env["partials"][Ring.idx(sol) % env["ring"].K]
                 return sol if env["dk"] == "same" else [Ring.idx(sol)]  # "copy": a fresh partial solution
 
             def repair(partial, rng):
@@ -226,15 +384,20 @@ def _call(case, rec, minimize, shared=None):
                 return ring.mk(j)
 
             env["destroy"], env["repair"] = destroy, repair
+        if env["dk"] == "cached":
+            env.setdefault("partials", [[i] for i in range(ring.K)])
         start = _start(env, shared, ring, case["start"])
         acc = case["accept"]
         acc = env.setdefault("acc:" + canon(acc), _accept(acc)) if isinstance(acc, dict) else acc
-        return lns(start, rec, env["destroy"], env["repair"], accept=acc, **cfg, **kw), [start], None
+        return go(lns, start, rec, env["destroy"], env["repair"], accept=acc, **cfg, **kw), [start], None
 
     if s == "alns":
         from solvor.lns import alns
 
         def mk_d(a):
+            if pres.get("partial") == "cached":  # persistent partial-solution objects owned by the operator
+                cache = env.setdefault(("partials", a), {})
+                return lambda sol, rng: cache.setdefault(Ring.idx(sol) + a, [Ring.idx(sol) + a])
             return lambda sol, rng: [Ring.idx(sol) + a]
 
         def mk_r(b):
@@ -244,11 +407,21 @@ def _call(case, rec, minimize, shared=None):
 
         dops = _keep_list(shared, "dops", [env.setdefault(("d", a), mk_d(a)) for a in case["destroy_ops"]])
         rops = _keep_list(shared, "rops", [env.setdefault(("r", b), mk_r(b)) for b in case["repair_ops"]])
+        if pres.get("ops") == "tuple":
+            dops, rops = env.setdefault("dops_t", tuple(dops)), env.setdefault("rops_t", tuple(rops))
+        if pres.get("weights") == "tuple":
+            for wk in ("destroy_weights", "repair_weights"):
+                if wk in cfg:
+                    cfg[wk] = env.setdefault(wk, tuple(cfg[wk]))
+        if pres.get("partial") == "cached":
+            for a in case["destroy_ops"]:
+                for i in range(ring.K):
+                    env[("partials", a)].setdefault(i + a, [i + a])  # complete before the first call
         start = _start(env, shared, ring, case["start"])
         acc = case["accept"]
         acc = env.setdefault("acc:" + canon(acc), _accept(acc)) if isinstance(acc, dict) else acc
         extra = {} if acc is None else {"accept": acc}  # None: the library default
-        return alns(start, rec, dops, rops, **extra, **cfg, **kw), [start], None
+        return go(alns, start, rec, dops, rops, **extra, **cfg, **kw), [start], None
 
     if s == "evolve":
         from solvor.genetic import evolve
@@ -275,7 +448,9 @@ def _call(case, rec, minimize, shared=None):
 
             env["crossover"], env["mutate"] = crossover, mutate
         pop = _keep_list(shared, "population", [ring.mk(i) for i in case["population"]])
-        return evolve(rec, pop, env["crossover"], env["mutate"], **cfg, **kw), list(pop), None
+        if pres.get("pop") == "tuple":
+            pop = env.setdefault("pop_t", tuple(pop))
+        return go(evolve, rec, pop, env["crossover"], env["mutate"], **cfg, **kw), list(pop), None
 
     # ---- continuous
     def inside(p, bounds):
@@ -284,45 +459,73 @@ def _call(case, rec, minimize, shared=None):
     def rows(init):
         return None if init is None else [tuple(p) if case.get("tuples") else list(p) for p in init]
 
+    def pbounds(b):
+        """bounds as the caller's persistent list / tuple of (lo, hi) tuples / [lo, hi] lists"""
+        if b is None:
+            return None
+        if not pres:
+            return _keep_list(shared, "bounds", [tuple(x) for x in b])
+        mk = list if pres.get("pair") == "list" else tuple
+        return env.setdefault("bounds_p", _box(pres.get("bounds"), [mk(x) for x in b]))
+
+    def prows(init_arg):
+        if init_arg is None or pres.get("rows") != "tuple":
+            return init_arg
+        return env.setdefault("rows_t", tuple(init_arg))
+
     if s == "differential_evolution":
         from solvor.differential_evolution import differential_evolution
-        bounds = _keep_list(shared, "bounds", [tuple(b) for b in case["bounds"]])
+        bounds = pbounds(case["bounds"])
         init = _points(case.get("initial"), bounds)
         starts = [p for p in (init or [])[: max(cfg.get("population_size", 15), 4)] if inside(p, bounds)]
-        init_arg = _keep_rows(shared, "initial", rows(init))
-        return differential_evolution(rec, bounds, initial_population=init_arg, **cfg, **kw), starts, list(bounds)
+        init_arg = prows(_keep_rows(shared, "initial", rows(init)))
+        return go(differential_evolution, rec, bounds, initial_population=init_arg, **cfg, **kw), starts, list(bounds)
 
     if s == "particle_swarm":
         from solvor.particle_swarm import particle_swarm
-        bounds = _keep_list(shared, "bounds", [tuple(b) for b in case["bounds"]])
+        bounds = pbounds(case["bounds"])
         init = _points(case.get("initial"), bounds)
         starts = [p for p in (init or [])[: cfg.get("n_particles", 30)] if inside(p, bounds)]
-        init_arg = _keep_rows(shared, "initial", rows(init))
-        return particle_swarm(rec, bounds, initial_positions=init_arg, **cfg, **kw), starts, list(bounds)
+        init_arg = prows(_keep_rows(shared, "initial", rows(init)))
+        return go(particle_swarm, rec, bounds, initial_positions=init_arg, **cfg, **kw), starts, list(bounds)
 
     if s == "nelder_mead":
         from solvor.nelder_mead import nelder_mead
-        x0 = tuple(case["x0"]) if case.get("tuples") else _keep_list(shared, "x0", list(case["x0"]))
-        return nelder_mead(rec, x0, **cfg, **kw), [list(case["x0"])], None
+        x0 = (env.setdefault("x0_t", tuple(case["x0"])) if frozen else tuple(case["x0"])) if case.get("tuples") else \
+            _keep_list(shared, "x0", list(case["x0"]))
+        return go(nelder_mead, rec, x0, **cfg, **kw), [list(case["x0"])], None
 
     if s == "bayesian_opt":
         from solvor.bayesian import bayesian_opt
-        bounds = _keep_list(shared, "bounds", [tuple(b) for b in case["bounds"]])
-        return bayesian_opt(rec, bounds, **cfg, **kw), [], list(bounds)
+        bounds = pbounds(case["bounds"])
+        return go(bayesian_opt, rec, bounds, **cfg, **kw), [], list(bounds)
 
     if s == "powell":
         from solvor.powell import powell
-        b = case.get("bounds")
-        b = None if b is None else _keep_list(shared, "bounds", [tuple(x) for x in b])
-        return powell(rec, _keep_list(shared, "x0", list(case["x0"])), bounds=b, **cfg, **kw), [], None
+        b = pbounds(case.get("bounds"))
+        x0 = env.setdefault("x0_t", tuple(case["x0"])) if pres.get("x0") == "tuple" else _keep_list(shared, "x0", list(case["x0"]))
+        return go(powell, rec, x0, bounds=b, **cfg, **kw), [], None
 
     if s in ("bfgs", "lbfgs"):
         import importlib
         mod = importlib.import_module("solvor.bfgs")
         env["g"] = make_gradient(case["obj"], case.get("grad", "analytic"))  # gradient of the user's f, user's sign
         if "grad" not in env:
-            env["grad"] = lambda x: env["g"](x)
-        return getattr(mod, s)(env["grad"], _keep_list(shared, "x0", list(case["x0"])), objective_fn=rec, **cfg, **kw), [], None
+            gk = pres.get("grad", "list")
+            buf: list = []
+
+            def grad(x):
+                g = env["g"](x)
+                if gk == "tuple":
+                    return tuple(g)
+                if gk == "buffer":  # the callback's own persistent list, overwritten and handed out on every call
+                    buf[:] = g
+                    return buf
+                return g
+
+            env["grad"] = grad
+        x0 = env.setdefault("x0_t", tuple(case["x0"])) if pres.get("x0") == "tuple" else _keep_list(shared, "x0", list(case["x0"]))
+        return go(getattr(mod, s), env["grad"], x0, objective_fn=rec, **cfg, **kw), [], None
 
     raise ValueError(s)
 
@@ -404,6 +607,8 @@ def judge_case(case):
     """-> (list of (clause, detail), non-trivial?)"""
     if "history" in case:
         return judge_history(case)
+    if "present" in case:
+        return judge_present(case)
     case = resolve_plant(case)
     s = case["solver"]
     r = execute(case)
@@ -427,6 +632,34 @@ def judge_case(case):
             bad.append(("mirror:max(f)==min(-f)",
                         f"minimize={r['minimize']} on f: {_summary(r)}; minimize={m['minimize']} on -f: {_summary(m)}"))
     return bad, nontrivial(sign, r["trace"])
+
+
+def judge_present(case):
+    """Presentation mode (round 3): ONE set of argument objects and callbacks (with the data behind them: neighbourhood
+    tables, cached solution / partial-solution objects, operator / weight / bounds / population / start-point containers),
+    the same call issued twice.  Each call is judged by its own books; the caller-owned data must be the same before and
+    after each call (typed deep snapshot); the second Result must equal the first."""
+    shared: dict = {"frozen": True}
+    bad, nt, first = [], False, None
+    for k in (0, 1):
+        r = execute(case, shared=shared)
+        which = "first call" if k == 0 else "the same call repeated on the same objects"
+        if "error" in r:
+            bad.append(("returns-a-result", f"{which}: {r['error']}"))
+            break
+        bad += [(cl, f"{which}: {d}") for cl, d in _books(case, r)]
+        nt = nt or nontrivial(1 if r["minimize"] else -1, r["trace"])
+        d = _freeze_diff(shared.get("_before"), shared.get("_after"))
+        if d:
+            bad.append(("frame:caller-data-unchanged", f"{which} changed data owned by the caller / the callbacks: {d}"))
+        if k == 0:
+            first = _summary(r)
+            if case.get("seedless"):
+                break
+        elif _summary(r) != first:
+            bad.append(("reproducible:same-call-same-objects",
+                        f"first call {first}; the identical call (same objects, same seed) again: {_summary(r)}"))
+    return bad, nt
 
 
 def judge_history(h, fresh_process=None):
@@ -866,6 +1099,17 @@ def run(ctx: Ctx):
             if v:
                 spaces.append((f"{k} {fname}", dict(exhaustive=False, seed=ctx.seed + 2, **(desc if k == "anneal" else {})), v))
 
+    # round-3 family: the small-scope random and the mid-size generators once more, every case in another legal presentation
+    # (containers / persistence of callback results and argument lists, unusual solution and label values); own stream
+    rng3 = random.Random(ctx.seed + 3)
+    n3 = (800, 300, 12, 60) if q else (6000, 2000, 120, 400)  # random discrete / continuous / bayesian_opt, mid-size per solver
+    base3 = rnd_discrete(rng3, n3[0])
+    base3.update(rnd_continuous(rng3, n3[1], n3[2]))
+    for k in FIRST + SECOND:
+        v = base3[k][: n3[0] if k in R2.DISCRETE else n3[1]] + R2.mid_size(rng3, k, n3[3] if k != "bayesian_opt" else n3[3] // 4)
+        pv = [R2.present_of(rng3, c, NONE_STATES) for c in v]
+        spaces.append((f"{k} presentation", dict(exhaustive=False, seed=ctx.seed + 3, **(PRESENT_DESC if k == "anneal" else {})), pv))
+
     allc = [c for _, _, v in spaces for c in v]
     order = list(range(len(allc)))
     random.Random(ctx.seed + 1).shuffle(order)  # spread slow solvers over the chunks
@@ -905,7 +1149,10 @@ def run(ctx: Ctx):
                 "judged against the statement, or one history (4-7 calls on shared argument objects, each call also run on fresh "
                 "objects and in a fresh interpreter); non-trivial = in the recorded trace (of some call, for a history) some "
                 "evaluation after the first best one is strictly worse than it (returning the last/current point would be "
-                "wrong); distinct = different case digest")
+                "wrong); distinct = different case digest. Presentation family (round 3): one JSON case = the small-scope random / mid-size "
+                "case of a solver plus a drawn presentation (containers, persistence of callback results, solution / label values); the "
+                "objects are built once, the call is made twice on them, each call judged by its books, by the typed deep snapshot of the "
+                "caller-owned data before / after, and the second Result against the first")
     ctx.assumptions += [
         "objective and callbacks are deterministic functions of their arguments and of their own call history (scripts), "
         "re-created for every run; callbacks never mutate an object they did not create ('in place' only on the fresh partial "
@@ -924,6 +1171,10 @@ def run(ctx: Ctx):
         "mirror and reproducibility compare (solution, objective, iterations, evaluations, status); stop callbacks depend on "
         "the iteration / evaluation counter only",
         "bounds clause only for the first group (differential_evolution, particle_swarm, bayesian_opt), as the statement says",
+        "presentation family: a tuple is accepted wherever the signature says Sequence; a neighbourhood callback may hand back any iterable "
+        "of (move, solution) pairs and may hand back the same persistent object on every call; data reachable only through a callback (its "
+        "table, its cached solution objects) belongs to the caller: the solver may read it, not change it; None as a solution value only "
+        "with VERIF_C19_NONE_STATES=1 (triage/C19_round3.md)",
     ]
     ctx.trusted += ["oracles/search_books.py (recording proxy, table/grid/separable objectives and their generators, min over the "
                     "trace, float ==, <=, unary -)",
